@@ -122,6 +122,13 @@ func (ch *Channel) run() {
 		close(writerTerminate)
 		<-writerDone
 
+	case err = <-writerDone:
+		// the writer stopped by itself because a write failed:
+		// close the channel and report the error, instead of leaving it
+		// open with nobody consuming its write queue
+		ch.rwc.Close()
+		<-readerDone
+
 	case <-ch.ctx.Done():
 		close(writerTerminate)
 		<-writerDone
